@@ -11,6 +11,7 @@
 // Includes iwjson.c itself so that the static functions are reachable.
 #include "json/iwjson.c"
 #include "hcommon.h"
+#include <errno.h>
 
 #if defined(__SANITIZE_ADDRESS__)
 #include <sanitizer/lsan_interface.h>
@@ -190,6 +191,7 @@ int main(void) {
   while (fgets(line, sizeof(line), stdin)) {
     int n = toks(line, tv, 8);
     if (n == 0) { printf("\n"); continue; }
+    errno = 0; // the text parser reads a stale ERANGE as its own (C17's subject); every query starts clean
     if (!strcmp(tv[0], "patch") && n == 4) {
       const char *mode = tv[1];
       uint8_t *doc, *pt;
